@@ -538,7 +538,9 @@ func (s *session) handleLogon(msg *Message) error {
 	}
 
 	if resetStore {
-		if err := s.store.Reset(); err != nil {
+		// Take the send lock and drop what is queued: a sender that has read the old next number must not
+		// save under it into the fresh store, and nothing numbered before the reset may be sent after it.
+		if err := s.dropAndReset(); err != nil {
 			return err
 		}
 	}
